@@ -259,3 +259,50 @@ def object_histories(ctx):
                 ctx.oracle('AccSignal.response_series == response_series(current record, current periods, damping) after any history',
                            ok, {'history': list(hist), 'n': n, 'dt': dt, 'periods': cur_rt}, facts={'history': list(hist)})
         ctx.count_case(('hist', a.tobytes(), tuple(hist)), True, sample={'fn': 'AccSignal history', 'history': hist} if i < 2 else None)
+
+
+# ---- extras (round-3 lessons): extreme magnitudes -----------------------------------------------------------------------------------------
+
+def extras(ctx):
+    """the response is homogeneous of degree one in the record: response(2^k a) == 2^k response(a) bit for bit, through all three entry
+    points, also for |k| = 600 (records around 1e-180 / 1e+180): no shortcut, tolerance or squared magnitude may depend on the scale"""
+    import eqsig
+    from eqsig import sdof
+    rng = ctx.rng
+    for it in range(6 if ctx.tier == 'quick' else 60):
+        n = rng.randint(8, 120)
+        dt = rng.choice([0.01, 0.005, 0.02, 0.1])
+        a = gen.noise_record(rng, n) if it % 2 else gen.dyadic_record(rng, n)
+        if not np.any(a):
+            a[n // 2] = 1.0
+        periods = [rng.choice([0.05, 0.1, 0.3, 1.0, 2.5]) for _ in range(rng.randint(1, 3))]
+        if rng.random() < 0.4:
+            periods = [0.0] + periods
+        xi = rng.choice([0.0, 0.05, 0.3])
+        base = call_impl(sdof.response_series, a, dt, np.array(periods), xi)
+        if base[0] != 'ok':
+            continue
+        for k in gen.EXTREME_POW2:
+            sc = 2.0 ** k
+            ctx.hist(f'extreme-scale/2^{k}')
+            ctx.count_case(('extreme', a.tobytes(), dt, tuple(periods), xi, k), True)
+            calls = [('sdof.response_series', lambda: sdof.response_series(a * sc, dt, np.array(periods), xi)),
+                     ('sdof.nigam_and_jennings_response', lambda: sdof.nigam_and_jennings_response(a * sc, dt, np.array(periods), xi)),
+                     ('AccSignal.response_series', lambda: ctx.aged(eqsig.AccSignal, a * sc, dt).response_series(np.array(periods), xi))]
+            for name, f in calls:
+                r = call_impl(f)
+                ok = r[0] == 'ok' and all(gen.scaled_exactly(np.asarray(g), np.asarray(b), sc) for g, b in zip(r[1], base[1]))
+                ctx.oracle('C01 the three series are homogeneous in the record: response(2^k a) == 2^k response(a) exactly, also for records '
+                           'around 1e-180 / 1e+180 (%s)' % name, ok,
+                           {'a': a, 'dt': dt, 'periods': periods, 'xi': xi, 'scale': f'2**{k}'},
+                           detail=None if ok else {'result': r[0] if r[0] != 'ok' else [float(np.max(np.abs(g))) for g in r[1]],
+                                                   'expected_peaks': [float(np.max(np.abs(b))) * sc for b in base[1]]})
+
+
+_run_main = run
+
+
+def run(ctx):
+    _run_main(ctx)
+    extras(ctx)
+    ctx.flush()
